@@ -144,6 +144,23 @@ func TestC08Threshold(t *testing.T) {
 			if err := tbls.Verify(group, msg, agg); err != nil {
 				rt.Fatalf("aggregate of %v does not verify under the group key: %v", idxs, err)
 			}
+			// the same set asked again gives the same answers (the caller's maps are its own: a library call
+			// leaves them as they were)
+			for _, i := range idxs {
+				if subS[i] != shares[i] || subP[i] != pubshares[i] || subSig[i] != partials[i] {
+					rt.Fatalf("CALLER'S SHARES CHANGED: after recovery / aggregation over %v (%d-of-%d) the caller's entry for share %d is no longer what it passed in", idxs, thr, n, i)
+				}
+			}
+			if mi%3 == 0 {
+				rec2, err := tbls.RecoverSecret(subS, uint(n), uint(thr))
+				if err != nil || rec2 != secret {
+					rt.Fatalf("RecoverSecret(%v) of %d-of-%d asked a second time with the same map: err=%v equal=%v", idxs, thr, n, err, rec2 == secret)
+				}
+				agg2, err := tbls.ThresholdAggregate(subSig)
+				if err != nil || agg2 != full {
+					rt.Fatalf("ThresholdAggregate(%v) of %d-of-%d asked a second time with the same map: err=%v equal=%v", idxs, thr, n, err, agg2 == full)
+				}
+			}
 			nontrivial := thr < n && !(len(idxs) == thr && idxs[len(idxs)-1] == thr)
 			vstat.Case(fmt.Sprintf("%d/%d/%b/pos/%x", n, thr, m, entropy[:6]), nontrivial, "positive", fmt.Sprintf("n=%d", n), cls("superset", len(idxs) > thr), cls("csprng_split", !insecure))
 			if mi%negEvery != 0 {
